@@ -7,9 +7,11 @@ and dangling keys, a shared referential attribute (to two classes; to one class
 through two identifiers; as the identifier a third class refers to), equally
 named referential attributes of two classes, reflexive and association class
 shapes is loaded and its links compared with the relational join of the
-reference; (2) order / partition independence: every permutation of the
+reference, with rows written positionally and with named columns in any order
+and letter case; (2) order / partition independence: every permutation of the
 statements, every contiguous split into up to three input() calls in every
-call order, files, directory trees and zip archives; (3) API route: the same
+call order, files, directory trees and zip archives (also archives whose members
+carry the same full name); (3) API route: the same
 rows created through MetaModel.new with referential values (referred first)
 and through clone().
 '''
@@ -28,6 +30,10 @@ ASSUMPTIONS = [
     'which pairs are linked depends on the model alone, not on models loaded earlier in the process (cross-model family: schemas '
     'declaring the same class and attribute names with other types, one after the other in one process)',
     'inferred-schema inputs (no CREATE TABLE) are used only with positional rows whose values determine the types',
+    'column names of named INSERT statements denote the declared attribute of that name in any letter case (identifiers of the '
+    'dialect are case-insensitive) and in any column order',
+    'every .xtuml member of a zip archive is part of the input, also when several members carry the same full name (an archive '
+    'that was appended to)',
     'an identifying attribute that is itself referential (D.B_X -> B.X, B.X -> A.Id / C.Id) has a value only through a link: the API '
     'route is compared for populations in which every non-null value of such an attribute is the one its links give (the loader '
     'route is compared for all of them, dangling ones included)',
@@ -162,21 +168,35 @@ def lit(value, ty, style=0):
     return '%d' % value
 
 
+def spelled(name, k):
+    '''A column name in one of four letter cases (identifiers of the dialect are case-insensitive).'''
+    return (name, name.upper(), name.lower(), name.swapcase())[k % 4]
+
+
 def statements(schema, rows, style=0):
-    '''The statement texts of an input: CREATE TABLE / ROP statements then one INSERT per row.'''
+    '''The statement texts of an input: CREATE TABLE / ROP statements then one INSERT per row.
+    style 0 / 1: positional rows (named when a value is unset), 2 / 3: named columns in declared / reversed order and the
+    declared spelling, 4 / 5: named columns rotated by the row number / reversed, every column name in another letter case
+    (declared, upper, lower, swapped -- cycling over rows and columns); odd styles write ids as integers and booleans as 0 / 1.'''
     out = []
     for kind, attrs in schema.classes:
         out.append('CREATE TABLE %s (%s);' % (kind, ', '.join('%s %s' % (n, t) for n, t in attrs)))
     for a in schema.assocs:
         out.append(a.sql().strip())
     types = dict((k, dict(a)) for k, a in schema.classes)
-    for kind, values in rows:
+    for ri, (kind, values) in enumerate(rows):
         names = [n for n, _ in schema.attrs(kind) if values.get(n, ABSENT) != ABSENT]
         if len(names) == len(schema.attrs(kind)) and style < 2:
             out.append('INSERT INTO %s VALUES (%s);' % (kind, ', '.join(lit(values[n], types[kind][n], style) for n in names)))
         else:
             shown = names if style % 2 == 0 else names[::-1]
-            out.append('INSERT INTO %s (%s) VALUES (%s);' % (kind, ', '.join(shown), ', '.join(lit(values[n], types[kind][n], style) for n in shown)))
+            cols = shown
+            if style >= 4:
+                if style == 4 and names:
+                    k = ri % len(names)
+                    shown = names[k:] + names[:k]
+                cols = [spelled(n, ri + ci + 1) for ci, n in enumerate(shown)]
+            out.append('INSERT INTO %s (%s) VALUES (%s);' % (kind, ', '.join(cols), ', '.join(lit(values[n], types[kind][n], style) for n in shown)))
     return out
 
 
@@ -234,7 +254,7 @@ def join_task(ctx, task):
     si, tier, pops = task
     schema, alphabet, caps = schemas_()[si]
     for rows in pops:
-        for style in ((0,) if tier == 'cross' else (0, 3) if tier == 'quick' else (0, 1, 2, 3)):
+        for style in ((0,) if tier == 'cross' else (0, 3, 4) if tier == 'quick' else (0, 1, 2, 3, 4, 5)):
             ctx.count('loads')
             case = dict(kind='join', schema=si, rows=rows, style=style)
             text = '\n'.join(statements(schema, rows, style))
@@ -411,22 +431,29 @@ def files_task(ctx, task):
     n = len(stmts)
     case0 = dict(kind='files', schema=si, rows=rows)
     # every assignment of statements to three files; layout: file 0 in the root, file 1 in sub/, file 2 in sub/deep/
+    import shutil
+    import warnings
     for assign in itertools.product(range(3), repeat=n):
         if tier == 'quick' and sum(assign) % 3 != 0:
             continue
-        for route in ('dir', 'zip', 'files'):
-            import shutil
-            shutil.rmtree(root, ignore_errors=True)
-            os.makedirs(os.path.join(root, 'other', 'deep'))
-            os.makedirs(os.path.join(root, 'sub'))
-            paths = [os.path.join(root, 'a.xtuml'), os.path.join(root, 'sub', 'b.xtuml'), os.path.join(root, 'other', 'deep', 'c.xtuml')]
-            for k, p in enumerate(paths):
-                with open(p, 'w') as f:
-                    # (files end with a line break, with nothing, or with a comment that has no final line break)
-                    f.write('\n'.join(s for s, a in zip(stmts, assign) if a == k) + ['\n', '', ' -- end of file', '\n-- c'][(k + sum(assign)) % 4])
-            with open(os.path.join(root, 'sub', 'decoy.sql'), 'w') as f:
-                f.write('this is not sql and must not be read')
+        shutil.rmtree(root, ignore_errors=True)
+        os.makedirs(os.path.join(root, 'other', 'deep'))
+        os.makedirs(os.path.join(root, 'sub'))
+        paths = [os.path.join(root, 'a.xtuml'), os.path.join(root, 'sub', 'b.xtuml'), os.path.join(root, 'other', 'deep', 'c.xtuml')]
+        # (files end with a line break, with nothing, or with a comment that has no final line break)
+        contents = ['\n'.join(s for s, a in zip(stmts, assign) if a == k) + ['\n', '', ' -- end of file', '\n-- c'][(k + sum(assign)) % 4]
+                    for k in range(3)]
+        for p, text in zip(paths, contents):
+            with open(p, 'w') as f:
+                f.write(text)
+        with open(os.path.join(root, 'sub', 'decoy.sql'), 'w') as f:
+            f.write('this is not sql and must not be read')
+        # archives in which several members carry the same full name (zipfile / "zip -g" append without replacing): every
+        # member is a part of the input. Quick: one naming scheme per spread, thorough: all of them
+        dups = sorted(ZIPDUP_SCHEMES) if tier != 'quick' else [sorted(ZIPDUP_SCHEMES)[(sum(assign) // 3) % len(ZIPDUP_SCHEMES)]]
+        for route in ['dir', 'zip', 'files'] + ['zipdup:' + d for d in dups]:
             ctx.count('loads')
+            sigroute = route.split(':')[0]
             try:
                 l = LightBridgePointLoader.make()
                 if route == 'dir':
@@ -437,24 +464,40 @@ def files_task(ctx, task):
                 else:
                     z = os.path.join(bootstrap.tmpdir(), 'c03-%d.zip' % os.getpid())
                     with zipfile.ZipFile(z, 'w') as zf:
-                        for p in paths:
-                            zf.write(p, os.path.relpath(p, root))
+                        if route == 'zip':
+                            for p in paths:
+                                zf.write(p, os.path.relpath(p, root))
+                        else:
+                            with warnings.catch_warnings():
+                                warnings.simplefilter('ignore')           # UserWarning: Duplicate name
+                                for name, text in zip(ZIPDUP_SCHEMES[route.split(':')[1]], contents):
+                                    zf.writestr(name, text)
+                            ctx.count('zip_archives_with_equally_named_members')
                         zf.write(os.path.join(root, 'sub', 'decoy.sql'), 'sub/decoy.sql')
                     l.filename_input(z)
                 got = value_canon(l.build_metamodel(xtuml.IntegerGenerator()), schema)
             except Exception as e:
-                ctx.violation('c03:files:%s:%s' % (route, type(e).__name__), dict(case0, assign=list(assign), route=route),
+                ctx.violation('c03:files:%s:%s' % (sigroute, type(e).__name__), dict(case0, assign=list(assign), route=route),
                               'route %s with statements spread %s raised %s: %s' % (route, assign, type(e).__name__, e))
                 continue
             if got != base:
-                ctx.violation('c03:files:%s' % route, dict(case0, assign=list(assign), route=route),
-                              'route %s with statements spread %s over a.xtuml, sub/b.xtuml, other/deep/c.xtuml differs from the '
-                              'single-string load: %s' % (route, assign, first_diff(base, got)))
+                where = 'a.xtuml, sub/b.xtuml, other/deep/c.xtuml' if sigroute != 'zipdup' else \
+                    'the archive members %s' % (ZIPDUP_SCHEMES[route.split(':')[1]],)
+                ctx.violation('c03:files:%s' % sigroute, dict(case0, assign=list(assign), route=route),
+                              'route %s with statements spread %s over %s differs from the '
+                              'single-string load: %s' % (route, assign, where, first_diff(base, got)))
                 continue
             ctx.count('traces')
             ctx.distinct('nontrivial', ('files', si, repr(rows), assign, route))
-    import shutil
     shutil.rmtree(root, ignore_errors=True)
+
+
+# member names of archives holding equally named members, in member order
+ZIPDUP_SCHEMES = {
+    'all-same': ['m.xtuml', 'm.xtuml', 'm.xtuml'],
+    'first-last-same': ['sub/m.xtuml', 'n.xtuml', 'sub/m.xtuml'],
+    'first-two-same': ['a.xtuml', 'a.xtuml', 'other/deep/b.xtuml'],
+}
 
 
 def api_task(ctx, task):
@@ -588,6 +631,8 @@ def run(ctx):
     ctx.sample(dict(schema=sch.name, input='\n'.join(statements(sch, next(iter(populations(sch, al, cp, 'quick'))), 0))))
     if small:
         ctx.sample(dict(order_input=statements(schemas_()[small[0][0]][0], small[0][1], 0)))
+    ctx.require(ctx.n('zip_archives_with_equally_named_members') >= 200, 'too few zip archives with equally named members (%d)' %
+                ctx.n('zip_archives_with_equally_named_members'))
     ctx.require(ctx.nd('join_cases') >= 2000, 'too few populations loaded (%d)' % ctx.nd('join_cases'))
     ctx.require(ctx.n('small_inputs') >= 20, 'too few inputs for the permutation oracle (%d)' % ctx.n('small_inputs'))
     ctx.require(ctx.n('api_cases') >= 200, 'too few API-route populations (%d)' % ctx.n('api_cases'))
@@ -621,10 +666,12 @@ def coverage(ctx):
                                                             'population of schema j, in a process of its own per task'),
         api_populations=ctx.n('api_cases'), api_populations_with_referential_identifier=ctx.n('api_chained_cases'), order_inputs=ctx.n('small_inputs'),
         distinct_nontrivial=ctx.nd('nontrivial'),
-        rule='join: every population of the bounded alphabets per schema, each in 2 (thorough 4) value/insert styles; non-trivial = '
+        zip_archives_with_equally_named_members=ctx.n('zip_archives_with_equally_named_members'),
+        rule='join: every population of the bounded alphabets per schema, each in 3 (thorough 6) value/insert styles (positional; named '
+             'columns reversed; named columns rotated with the names in upper / lower / swapped case); non-trivial = '
              'populations with at least one link; order: every permutation and every contiguous <=3-way split in every call order of '
              'every selected <=6 (7)-statement input; files: every spread of the statements over a two-level directory tree, the same '
-             'files one by one, and a zip archive with a decoy member; api: MetaModel.new with referential values and clone()',
+             'files one by one, a zip archive with a decoy member and zip archives whose members carry the same full name (%s); api: MetaModel.new with referential values and clone()' % ', '.join(sorted(ZIPDUP_SCHEMES)),
         bounds=dict(schemas=[s.name for s, _, _ in schemas_()], statements_max=6 if ctx.quick else 7),
         exhaustive=not ctx.caps_hit,
     )
